@@ -73,6 +73,8 @@ type Dispatcher struct {
 	pendingPiecesDoneOnce sync.Once
 	pendingPiecesDone     chan struct{}
 	completeOnce          sync.Once
+	tornDownOnce          sync.Once
+	tornDown              chan struct{}
 	events                Events
 	logger                *zap.SugaredLogger
 	torrentlog            *torrentlog.Logger
@@ -142,6 +144,7 @@ func newDispatcher(
 		pieceRequestTimeout: pieceRequestTimeout,
 		pieceRequestManager: pieceRequestManager,
 		pendingPiecesDone:   make(chan struct{}),
+		tornDown:            make(chan struct{}),
 		events:              events,
 		logger:              logger,
 		torrentlog:          tlog,
@@ -302,6 +305,7 @@ func (d *Dispatcher) removePeer(p *peer) error {
 
 // TearDown closes all Dispatcher connections.
 func (d *Dispatcher) TearDown() {
+	d.tornDownOnce.Do(func() { close(d.tornDown) })
 	d.pendingPiecesDoneOnce.Do(func() {
 		close(d.pendingPiecesDone)
 	})
@@ -540,6 +544,18 @@ func (d *Dispatcher) validate(msg *conn.Message) error {
 }
 
 func (d *Dispatcher) dispatch(p *peer, msg *conn.Message) error {
+	select {
+	case <-d.tornDown:
+		// The torrent was removed from the scheduler. Messages still queued on
+		// its closed conns must not be acted upon: the download file they were
+		// meant for may be gone, and a new download of the same blob may have
+		// created it anew.
+		if msg.Payload != nil {
+			closers.Close(msg.Payload)
+		}
+		return nil
+	default:
+	}
 	if err := d.validate(msg); err != nil {
 		if msg.Payload != nil {
 			closers.Close(msg.Payload)
